@@ -2049,4 +2049,61 @@ theorem undeclared_tag {banned : List Kind} {f : List BTree} {d : BDir} {n : Byt
   · rw [collectTags_empty h0]
     intro t ht _
     exact hno t ht
+/-! ### the names and ids of an accepted catalog never repeat -/
+
+theorem nodup_snoc {α} {l : List α} {a : α} (h : l.Nodup) (ha : a ∉ l) : (l ++ [a]).Nodup := by
+  rw [List.nodup_append]
+  refine ⟨h, by simp, ?_⟩
+  intro x hx y hy
+  simp only [List.mem_singleton] at hy
+  subst hy
+  intro hxy; subst hxy; exact ha hx
+
+theorem nodup_stepR {e : Ent} {c c' : Cat} (h : StepR e c c') :
+    ((c.types.map (·.name)).Nodup → (c'.types.map (·.name)).Nodup) ∧
+    ((c.servers.map (·.name)).Nodup → (c'.servers.map (·.name)).Nodup) ∧
+    ((c.inters.map (·.iid)).Nodup → (c'.inters.map (·.iid)).Nodup) := by
+  cases h
+  case type nt _ _ hf =>
+    refine ⟨fun hn => ?_, id, id⟩
+    simp only [List.map_append, List.map_cons, List.map_nil]
+    refine nodup_snoc hn ?_
+    intro hm
+    obtain ⟨t, ht, hn'⟩ := List.mem_map.mp hm
+    exact hf t ht hn'
+  case server _ _ hf =>
+    refine ⟨id, fun hn => ?_, id⟩
+    simp only [List.map_append, List.map_cons, List.map_nil]
+    refine nodup_snoc hn ?_
+    intro hm
+    obtain ⟨t, ht, hn'⟩ := List.mem_map.mp hm
+    exact hf t ht hn'
+  case baseUrl g _ hg =>
+    refine ⟨id, fun hn => ?_, id⟩
+    have : (fun x : ServerM => x.name) ∘ g = (fun x => x.name) := by funext x; simp [(hg x).1]
+    simpa only [List.map_map, this] using hn
+  case inters g _ hg =>
+    refine ⟨id, id, fun hn => ?_⟩
+    have : (fun x : InterM => x.iid) ∘ g = (fun x => x.iid) := by funext x; simp [(hg x).1]
+    simpa only [List.map_map, this] using hn
+  case method sim i ns extra g _ _ hh _ _ =>
+    refine ⟨id, id, fun hn => ?_⟩
+    simp only [List.map_append, List.map_cons, List.map_nil]
+    refine nodup_snoc hn ?_
+    intro hm
+    obtain ⟨x, hx, hi⟩ := List.mem_map.mp hm
+    have : c.hasInter i = true := by
+      simp only [Cat.hasInter, List.any_eq_true]
+      exact ⟨x, hx, by simp [hi]⟩
+    rw [this] at hh; cases hh
+  all_goals exact ⟨id, id, id⟩
+
+theorem nodup_compile {banned : List Kind} {f : List BTree} {c : Cat} (h : compile banned f = .ok c) :
+    (c.types.map (·.name)).Nodup ∧ (c.servers.map (·.name)).Nodup ∧ (c.inters.map (·.iid)).Nodup := by
+  obtain ⟨c₀, h0, _, _, _, hr, _⟩ := compile_ok h
+  refine run_inv (fun c => (c.types.map (·.name)).Nodup ∧ (c.servers.map (·.name)).Nodup ∧
+      (c.inters.map (·.iid)).Nodup) _ (fun e _ c₁ c₂ hp hs => ?_) c₀ c ?_ hr
+  · have := nodup_stepR (step_ok hs).2
+    exact ⟨this.1 hp.1, this.2.1 hp.2.1, this.2.2 hp.2.2⟩
+  · rw [collectTags_empty h0]; simp
 end JSight.C04B
